@@ -23,6 +23,7 @@ def dispatch (line : String) : String :=
   if line.startsWith "repl " then ReplDrv.run line else
   if line.startsWith "filter " then FilterDrv.run line else
   if line.startsWith "core " then CoreDrv.run line else
+  if line.startsWith "core2 " then CoreDrv.run2 line else
   match words line with
   | [] => "bad-op"
   | op :: args =>
